@@ -82,6 +82,49 @@ INFO = {
  "C19-d": ("urcu-bp thread exit: the TLS reader pointer is cleared only after the signal mask is restored", "signal handler using the read side on an exiting thread between unmask and the store: its section is invisible to grace periods"),
  "C20-c": ("x86 uatomic_add_return/sub_return: operand 0 takes a load-only fast path (no barrier)", "store-buffer litmus with add_return(&x, 0)"),
  "C20-d": ("x86 uatomic_cmpxchg: fails fast without the locked instruction and returns a second load", "the expected value written back between the two loads: false success (broken test-and-set lock)"),
+
+ # ---- round 4: (e) configuration-specific, (f) two cooperating sites
+ "C01-e": ("qsbr: reader classified ACTIVE_CURRENT by counter parity instead of equality", "qsbr flavor; a reader whose snapshot is two grace periods old (same parity) while a third synchronize_rcu() scans"),
+ "C01-f": ("urcu-bp: fork handlers no longer hold rcu_gp_lock; the child re-initialises it", "bp flavor; fork() while another thread is inside synchronize_rcu(); the child's first grace period runs on the half-updated registry lists"),
+ "C02-e": ("qsbr synchronize_rcu() called by an online reader stores ctr=0 without waking the grace-period futex", "qsbr; an updater asleep in FUTEX_WAIT waiting for exactly that reader, which now enters its own synchronize_rcu()"),
+ "C02-f": ("memb/mb wait_gp(): EINTR returns to the rescan without resetting the futex word + the next wait sleeps on any negative value", "a signal (EINTR) on the sleeping updater followed by a reader's wake that decrements the stale word"),
+ "C03-e": ("free_all_cpu_call_rcu_data() drops the grace period between clearing the per-CPU pointers and destroying the helpers", "per-CPU helpers; a call_rcu() that has read the per-CPU pointer but not yet enqueued while the helpers are freed"),
+ "C03-f": ("helper walks its batch without waiting for half-linked nodes + call_rcu() skips the read-side lock for per-thread helpers", "per-thread helper; an enqueuer suspended between the tail exchange and the link store while the helper runs the batch"),
+ "C04-e": ("call_rcu() drops the read-side lock before enqueueing", "per-CPU helper configuration; the helper is freed (set_cpu_call_rcu_data(NULL) + grace period + call_rcu_data_free) between the lookup and the enqueue, or rcu_barrier misses the callback"),
+ "C04-f": ("rcu_barrier(): every marker callback wakes the waiter + the waiter no longer re-checks the count", ">=2 helpers with pending callbacks; the first marker's wake-up releases the barrier while the second helper still has callbacks queued"),
+ "C05-e": ("fini_table() skips the grace period for bucket orders inside the initial allocation", "shrink below the initial order while a lookup/traversal is positioned on a bucket node of the level being removed"),
+ "C05-f": ("_cds_lfht_add() gc_node: BUCKET flag taken from the successor instead of the removed node", "an add that helps unlink a removed node whose successor is a bucket node (or the reverse): the predecessor's flag bits are wrong afterwards"),
+ "C06-e": ("add-side gc leaks the BUCKET flag of a removed bucket node", "shrink in progress (bucket nodes being removed) while an add traverses the chain and helps"),
+ "C06-f": ("cds_lfht_next_duplicate() continues from the node's current successor + add_unique passes a hand-made iterator", "duplicate walk / add_unique while the node it stands on is being removed or replaced"),
+ "C07-e": ("resize worker goes QSBR-offline for the whole resize", "qsbr flavor, lazy (AUTO_RESIZE) resize by the worker while an owner removes a node, waits a grace period and frees it: the worker still holds the pointer"),
+ "C07-f": ("RCU read lock hoisted from the partition functions into the helper-thread wrapper; the single-threaded fallback has none", "resize of a level big enough for partitioning but run by the fallback path (one cpu / pthread_create failure) concurrent with removal + reclamation"),
+ "C07-g": ("order allocator re-uses a bucket level it has already freed", "shrink then grow over the same order: the second grow writes into the level freed after the shrink's grace period"),
+ "C08-e": ("cds_lfht_resize_lazy_count(): clamp to max_nr_buckets lost", "AUTO_RESIZE|ACCOUNTING table whose node count crosses a power of two above max_nr_buckets"),
+ "C08-f": ("replace stops setting REMOVAL_OWNER, del starts trusting it", "del racing with replace of the same node: both report success (two owners)"),
+ "C09-e": ("cds_lfht_is_empty() returns early without read_unlock()/thread_offline()", "cds_lfht_destroy() of a non-empty AUTO_RESIZE table from outside a read-side section: the caller's read-side state leaks (later grace periods hang)"),
+ "C09-f": ("upper clamp moved from cds_lfht_resize_lazy_grow() to the grow worker", "chain-length triggered growth requested beyond max_nr_buckets: resize_target exceeds the maximum and later count-driven shrinks/grows misbehave"),
+ "C10-e": ("legacy cds_wfq: dummy node re-queued without resetting its next pointer", "legacy wfqueue API; dequeue reaching the dummy while the queue is non-empty: the stale next pointer re-links old nodes (duplicates / cycle)"),
+ "C10-f": ("cds_wfcq_empty() reduced to the tail test + splice no longer resets the source head", "splice of a queue followed by empty()/dequeue on the source while a new enqueue is half done"),
+ "C11-e": ("legacy cds_lfs_pop_rcu(): a failed cmpxchg falls through to 'return NULL' (empty)", "legacy rculfstack API with two concurrent poppers/pushers: pop reports empty on a non-empty stack"),
+ "C11-f": ("___cds_wfs_end() tests bit 0 instead of equality; cds_wfs_next_nonblocking relied on WOULDBLOCK != END", "non-blocking iteration of a popped list while a pusher is suspended between the head exchange and the next store: the list is truncated"),
+ "C12-e": ("cds_lfq_destroy_rcu() decides 'empty' from the tail node only", "queue at rest shaped [node, dummy] (dequeuer appended its dummy after an enqueuer linked a node): destroy frees a live node / asserts"),
+ "C12-f": ("try-once append helper + 'no dummy needed if the append failed' in dequeue", "enqueuer suspended between link and tail advance while a dequeuer drains to the last node: head becomes NULL"),
+ "C13-e": ("rcu_defer_num_callbacks() counts only the last queue visited ('=' for '+=')", ">=2 registered defer threads, the oldest idle; a younger thread queues while the reclaimer is awake: its call is never run by the background reclaimer"),
+ "C13-f": ("rcu_defer_barrier() skips idle queues in the snapshot loop + guards the flush with last_head != tail", "a thread that re-registered (or flushed with barrier_thread) and is idle while another has pending calls: stale entries are invoked"),
+ "C14-e": ("polling ids start at -1024 + poll_state_synchronize_rcu() compares unsigned", ">=1024 polled grace periods in one process (id wrap): a handle completes at once / never"),
+ "C14-f": ("wake_call_rcu_thread() skips the wake-up when called by the helper itself + the helper no longer re-checks the queue before sleeping", "start_poll while the poll worker's grace period is in flight (callback re-queues itself from the helper), futex-woken helper, no other traffic"),
+ "C15-e": ("bp expand_arena(): in-place growth clears the range after the grown chunk (capacity updated before the memset)", "bp registry growing in place (free address range after the chunk) to more than 16 simultaneously registered threads"),
+ "C15-f": ("bp: TLS reader pointer cleared by the exit notifier after signals are unblocked instead of under the registry lock", "a signal whose handler uses the read-side delivered to an exiting thread right after its unregistration"),
+ "C16-e": ("call_rcu_after_fork_child() early-returns when there is no default helper", "call_rcu used only through per-thread / per-CPU helpers (no default helper) before fork(): child's callbacks never run, child's call_rcu/rcu_barrier hang"),
+ "C16-f": ("urcu_bp_before_fork() takes init_lock first + thread-exit unregister calls urcu_bp_exit() under the registry lock (ABBA)", "bp; fork() racing with a reader thread exiting and a synchronize_rcu() in flight: three-party deadlock"),
+ "C17-e": ("cds_lfht_resize_lazy_count(): shrink cmpxchg loop lost the update of the expected value", "AUTO_RESIZE|ACCOUNTING table whose count falls through two shrink thresholds while the worker lags: a lock-free del spins forever"),
+ "C17-f": ("lfq: tail helping moved from enqueuers to dequeuers", "an enqueuer (or a dequeuer appending the dummy) suspended between the append and the tail advance while another enqueue runs: it never returns"),
+ "C18-e": ("cds_hlist_add_head_rcu(): new->next only written when the list is non-empty", "hlist API, empty list, node whose next field is stale (recycled memory / re-inserted node): readers follow the stale pointer"),
+ "C18-f": ("cds_list_del_rcu() forwards to cds_list_del(), which now leaves the element self-linked", "a reader positioned on the node at the moment it is removed: its traversal never terminates"),
+ "C19-e": ("urcu-wait: EINTR on a batched synchronize_rcu() waiter jumps to skip_futex_wait", "memb/mb, >=3 overlapping synchronize_rcu() callers, a signal (no SA_RESTART) on the sleeping follower: its call never returns"),
+ "C19-f": ("bp: the all-signals set is computed in _urcu_bp_init() but used by urcu_bp_register() before it", "bp; the process's first registration happens before the library constructor (early-registration path) and a signal with a read-side handler lands inside it: self-deadlock"),
+ "C20-e": ("x86 2-byte uatomic_add_return/sub_return lose the lock prefix", "2-byte operand, add_return/sub_return, >=2 cpus contending: lost updates"),
+ "C20-f": ("qualifier-stripping typeof helper ((x)+0 promotes) used for the result casts of cmpxchg/xchg/add_return", "C caller, x86 asm implementation, 1- or 2-byte operand, negative or wrapping value, result used un-narrowed"),
 }
 rows = []
 for d in sorted(glob.glob(os.path.join(V, "seeded", "C??-?"))):
